@@ -310,12 +310,15 @@ class CallMixin:
             return st.vars[key]
         if name == "zzFresh":
             v = self.ev(args[0], st)
+            # proving: allocated by this execution (any id above FRESH_BASE); assuming a callee's postcondition: allocated
+            # inside the callee, i.e. an abstract id that differs from everything the caller itself has allocated
+            base = ABSTRACT_BASE if getattr(self, "assuming_callee", 0) else FRESH_BASE
             if isinstance(v, SliceV):
-                return zor(z3.UGE(v.rid, rid(FRESH_BASE)), v.rid == rid(0))
+                return zor(z3.UGE(v.rid, rid(base)), v.rid == rid(0))
             if isinstance(v, PtrV):
-                return z3.UGE(v.oid, rid(FRESH_BASE))
+                return z3.UGE(v.oid, rid(base))
             if isinstance(v, IfaceV):
-                return z3.UGE(v.oid, rid(FRESH_BASE))
+                return z3.UGE(v.oid, rid(base))
             raise Unsupported("fresh() of this value")
         if name == "zzSameStr":
             a = self.ev(args[0], st)
@@ -634,7 +637,11 @@ class CallMixin:
         for cl in c.of("ensures") + c.of("trusts"):
             if cl.get("canary"):
                 continue
-            g = self.eval_clause(cl, post, results=results, old=pre)
+            self.assuming_callee = getattr(self, "assuming_callee", 0) + 1
+            try:
+                g = self.eval_clause(cl, post, results=results, old=pre)
+            finally:
+                self.assuming_callee -= 1
             self.assume(st, g)
             if cl["kind"] == "trusts":
                 self.assumptions.add("trusted (unproved) postcondition of %s: %s" % (self.prog.short(f.full), cl["text"]))
